@@ -65,6 +65,14 @@ def set_ret_hook(h):
     _NORM_MEMO.clear()
 
 
+GETTER_HOOK = [None]   # optional: callee path -> field name when the local function is the plain getter `self.<field>`
+
+
+def set_getter_hook(h):
+    GETTER_HOOK[0] = h
+    _NORM_MEMO.clear()
+
+
 def _norm(t):
     k = t[0]
     if k == 'ok' and isinstance(t[1], tuple) and t[1]:
@@ -92,6 +100,10 @@ def _norm(t):
         kk = RET_HOOK[0](t[1])
         if kk and kk <= len(t[2]):
             return norm(t[2][kk - 1])
+    if k == 'call' and len(t[2]) == 1 and GETTER_HOOK[0] is not None:
+        fld = GETTER_HOOK[0](t[1])
+        if fld:
+            return norm(('field', t[2][0], fld))
     if k == 'call' and len(t[2]) == 1 and re.search(r"PtrGuard(Mut)?::len$", canon(t[1])):
         g = t[2][0]
         while g[0] in ('cast', 'ref', 'deref'):
@@ -168,6 +180,56 @@ def _range_of_item(t):
             if n in ("into_iter", "rev", "take", "skip", "step_by", "take_while", "skip_while", "filter", "by_ref", "iter", "peekable", "fuse"):
                 it = norm(it[2][0])
                 continue
+        return None
+    return None
+
+
+_ITER_PASS = ("into_iter", "by_ref", "rev", "peekable", "fuse", "enumerate", "map", "inspect", "copied", "cloned")
+
+
+def iter_count(it, d=0):
+    """the number of items an iterator expression yields when driven to its end, as a term; adaptors that neither drop nor add
+    items are looked through; `take(n)` / `zip` are minima. None when the chain contains anything else."""
+    it = norm(it)
+    if d > 8 or not isinstance(it, tuple) or not it:
+        return None
+    if it[0] == 'call':
+        n, a = _last(it[1]), it[2]
+        if n in _ITER_PASS and a:
+            return iter_count(a[0], d + 1)
+        if n == "take" and len(a) == 2:
+            c = iter_count(a[0], d + 1)
+            return norm(('call', 'core::cmp::Ord::min', (c, norm(a[1])))) if c is not None else None
+        if n == "zip" and len(a) == 2:
+            c1, c2 = iter_count(a[0], d + 1), iter_count(a[1], d + 1)
+            return norm(('call', 'core::cmp::Ord::min', (c1, c2))) if c1 is not None and c2 is not None else None
+        if n in ("iter", "iter_mut") and len(a) == 1 and _LEN_OWNER.search(canon(it[1])):
+            return ('len', container(a[0]))
+    if it[0] == 'agg' and str(it[1]).split("::")[-1] == "Range" and len(it[3]) == 2 and norm(it[3][0]) == ('const', 0):
+        return norm(it[3][1])
+    return None
+
+
+def enum_index_count(t):
+    """t == ok(next(<.. enumerate(X) ..>)).0, the index part of an item of an enumerated iterator (adaptors after `enumerate` that
+    only forward items are looked through) -> the item count of X: the index is strictly below it"""
+    t = norm(t)
+    if t[0] != 'field' or t[2] != '0' or not isinstance(t[1], tuple) or t[1][0] != 'ok':
+        return None
+    x = norm(t[1][1])
+    if not _is(x, "next") or not x[2]:
+        return None
+    it = norm(x[2][0])
+    for _ in range(6):
+        if it[0] != 'call' or not it[2]:
+            return None
+        n = _last(it[1])
+        if n == "enumerate":
+            return iter_count(it[2][0])
+        if n in ("into_iter", "by_ref", "peekable", "fuse", "take"):
+            # take(k) after enumerate drops only a suffix: the indices that remain are still positions in X
+            it = norm(it[2][0])
+            continue
         return None
     return None
 
@@ -428,6 +490,11 @@ class Bounds:
                 return True
             if x == c and op in ('Ge', 'Gt', 'Eq') and y != c and self.le(a, y, d + 1):
                 return True
+        # a = x + 1 <= c  when  x < c  (integers)
+        if a[0] == 'bin' and a[1] == 'Add':
+            for x, y in ((a[2], a[3]), (a[3], a[2])):
+                if self.const(norm(y)) == 1 and self.lt(x, c, d + 1):
+                    return True
         # a = x + y <= c  when  y <= c - x  and  x <= c
         if a[0] == 'bin' and a[1] == 'Add':
             for x, y in ((a[2], a[3]), (a[3], a[2])):
@@ -471,6 +538,8 @@ class Bounds:
                 pass
         elif a[0] == 'narrow':
             out.append(a[2])
+        elif a[0] == 'field' and a[2] == '0' and enum_index_count(a) is not None:
+            out.append(enum_index_count(a))                 # index of an enumerated item: i < count (strictness used in lt)
         elif a[0] == 'vfield' and a[2] == 'Err' and _search_hay(a[1]) is not None:
             out.append(('len', _search_hay(a[1])))         # binary search: Err(i) has i <= len
         elif a[0] == 'ok':
@@ -560,6 +629,10 @@ class Bounds:
             rg = _range_of_item(a)
             if rg and not rg[2] and self.le(rg[1], c, d + 1):
                 return True
+        if a[0] == 'field' and a[2] == '0':
+            n_ = enum_index_count(a)
+            if n_ is not None and self.le(n_, c, d + 1):
+                return True
         if a[0] == 'bin' and a[1] == 'Rem' and self.le(a[3], c, d + 1):
             return True
         if _is(a, "rem", "rem_euclid") and len(a[2]) == 2 and self.le(_args(a)[1], c, d + 1):
@@ -638,12 +711,29 @@ class Bounds:
         ua, uc = self.ub(a), self.ub(c)
         if ua is not None and uc is not None and ua + uc <= MAXU:
             return "interval: %d + %d fits" % (ua, uc)
+        # p < X for a value X that exists, q <= 1: p + q <= X
+        for p, q in ((a, c), (c, a)):
+            uq = self.ub(q)
+            if uq is not None and uq <= 1 and self._strictly_bounded(p):
+                return "first operand is strictly below an existing value (index of an enumerated / ranged item, or a dominating `<`): adding at most 1 fits"
         # c <= X - a for some X (then a + c <= X, and X is a value that exists)
         for p, q in ((a, c), (c, a)):
             for cand in self._sub_terms_with(p, [q] + [y for _o, x, y in self.nfacts] + [x for _o, x, y in self.nfacts]):
                 if self.le(q, cand):
                     return "second operand <= (X - first) for an existing X: the sum is at most X"
         return None
+
+    def _strictly_bounded(self, p):
+        if p[0] == 'field' and p[2] == '0' and enum_index_count(p) is not None:
+            return True
+        if p[0] == 'ok':
+            rg = _range_of_item(p)
+            if rg and not rg[2]:
+                return True
+        for op, x, y in self.nfacts:
+            if (op == 'Lt' and x == p) or (op == 'Gt' and y == p):
+                return True
+        return False
 
     def _sub_terms_with(self, p, roots):
         """all subterms of the roots of the form X - p"""
@@ -666,6 +756,8 @@ class Bounds:
 
     def mul_fits(self, a, c):
         ua, uc = self.ub(a), self.ub(c)
+        if ua == 0 or uc == 0:
+            return "one factor is 0"
         if ua is not None and uc is not None and ua * uc <= MAXU:
             return "interval: %d * %d fits" % (ua, uc)
         return None
